@@ -325,6 +325,14 @@ func (d *AuthGrid) Eval(x *Exec, root *Node, gc GridCase) GridResult {
 			vs = append(vs, Viol("safe-method-mutates", fmt.Sprintf("%s.%s is declared safe but changed state or notified with all witnesses present: %v %v", r.Contract, r.Method, diff, o.Notifs), where))
 		}
 		out = "safe"
+		if !o.Halt {
+			out = "safe-faulted"
+			// a method that is declared safe and tries to write or notify is stopped by the VM (the pinned neo-go
+			// reports missing call flags): it does not modify state, but it is not the read-only method it is declared to be
+			if strings.Contains(o.Fault, "call flags") {
+				vs = append(vs, Viol("safe-method-mutates", fmt.Sprintf("%s.%s is declared safe and was stopped while trying to modify state: %s", r.Contract, r.Method, o.Fault), where))
+			}
+		}
 	case "verify":
 		got := o.Halt && Same(o.Ret0(), "i1")
 		if got != sufficient {
